@@ -294,6 +294,28 @@ def hist_raw(n, num, seed, maxcalls=8):
     return raw, stats
 
 
+def wide_drains(n):
+    """larger capacities (beyond the TLC-enumerated view families): every layout x every range a..b of a drain that is
+    dropped at once, after one next() or after one next_back(); the contract alone is the oracle (contents afterwards,
+    ownership, relocation bound, no allocation). Layouts where the elements before the range, the range and the elements
+    after it all wrap differently only exist from N = 6 on."""
+    out = []
+    k = 0
+    for start in range(n):
+        for size in range(n + 1):
+            for a in range(size + 1):
+                for b in range(a, size + 1):
+                    for pre in ([], [{"op": "v_next", "v": 0}], [{"op": "v_next_back", "v": 0}]):
+                        if pre and b == a:
+                            continue
+                        k += 1
+                        steps = layout_steps(n, start, size) + [{"op": "drain", "h": 0, "bs": ["i", a], "be": ["e", b], "v": 0}] + pre + \
+                                [{"op": "v_drop", "v": 0}, {"op": "observe"}]
+                        out.append({"id": "wd%d-%d" % (n, k), "n": n, "ty": "t", "tags": ["drain", "wide"], "steps": steps, "first_op": "drain",
+                                    "grp": core.sha('wd', n, size, a, b, len(pre) and pre[0]['op']), "pred": {"start": start, "size": size}})
+    return out
+
+
 def load_raw(path):
     out = []
     with open(path) as f:
